@@ -114,7 +114,7 @@ func vLexLE(a, b weight) bool {
 // weight is >= the old one (lexicographic on (precedence, specificity)), and the weight
 // recorded is the one CSS assigns: (origin/importance precedence, specificity).
 //@ func newStyleFor
-//@   props C03
+//@   props C03 C04
 //@   modifies anything
 //@   unclaimed call-match@1-pre1 "the element being styled is a node of the document and compiled selector lists contain no nil selector: data invariants of the style sheets, not tracked through the sheet list"
 //@   call mapupdate#2 assert we.precedence == declarationPrecedence("author", decl.Important) && we.specificity == styleAttr.specificity
@@ -127,6 +127,10 @@ func vLexLE(a, b weight) bool {
 //@   call mapupdate#4 assert[otherwise-the-selectors-own] len(sh.specificity) != 3 ==> we.specificity == sel.specificity
 //@   call mapupdate#4 assert oldWeight.isNone() || vLexLE(oldWeight, we)
 //@   call mapupdate#4 assert arg2.weight == we && arg1 == decl.Name
+// computed values: every element inherits from its parent and every pseudo-element from its originating element,
+// and BOTH resolve root-relative units (rem) against the document's root element
+//@   call setComputedStyles#1 assert[elements-inherit-from-their-parent] arg1 == element && arg2 == (*utils.HTMLNode)(element.Parent) && arg3 == html.Root && arg4 == ""
+//@   call setComputedStyles#2 assert[pseudo-elements-inherit-from-their-element] arg1 == key.Element && arg2 == key.Element && arg3 == html.Root && arg4 == key.PseudoType
 // ... and later declarations win ties: after a declaration is processed its slot holds the new weight unless the
 // weight it held was STRICTLY greater (style attributes and hints; then style sheets)
 //@   loop 2 step[later-wins-ties] (style[decl.Name].weight == we && style[decl.Name].value == decl.Value) || (!old(style[decl.Name].weight).isNone() && !vLexLE(old(style[decl.Name].weight), we))
